@@ -249,14 +249,14 @@ def _prepare(work, kind, text):
     return h, cs, nlines, nsteps, natomic
 
 
-def _replay_native(work, h, kind, nt):
-    defs = ["NT=%d" % nt, "NCALLS=%d" % CALLS, "VERIF_SCHEDLOG"]
-    r = K.cbmc([h], defines=defs, unwind=2 * nt * CALLS + 2, timeout=300, includes=[work])
+def _replay_native(work, h, kind, nt, calls=CALLS):
+    defs = ["NT=%d" % nt, "NCALLS=%d" % calls, "VERIF_SCHEDLOG"]
+    r = K.cbmc([h], defines=defs, unwind=2 * nt * calls + 2, timeout=300, includes=[work])
     if r.status != "failed":
         return None, "schedule-logging rerun did not fail (%s)" % r.status, ""
     s = K.schedule_from_trace(r.out)
     exe = os.path.join(work, "replay_%s_%d" % (kind, nt))
-    rc, out, err = sh(["gcc", "-O0", "-w", "-DVERIF_REPLAY", "-D__dso_handle=verif_dso_handle", "-DNT=%d" % nt, "-DNCALLS=%d" % CALLS, "-I", K.HERE, "-I", work, h,
+    rc, out, err = sh(["gcc", "-O0", "-w", "-DVERIF_REPLAY", "-D__dso_handle=verif_dso_handle", "-DNT=%d" % nt, "-DNCALLS=%d" % calls, "-I", K.HERE, "-I", work, h,
                        os.path.join(K.HERE, "verif_replay.c"), "-o", exe, "-lpthread"], timeout=120)
     if rc != 0:
         return None, "native replay build failed: " + err[-500:], s
@@ -282,14 +282,14 @@ def run(tier, seed, only=None):
             prep[kind] = _prepare(work, kind, texts[kind])
         obls = []
         for kind in ("interp", "synth"):
-            for nt in (2, 3):
-                name = "%s/threads=%d/calls=%d" % (kind, nt, CALLS)
+            for nt, calls in ((2, CALLS), (3, CALLS)) + (((2, 3),) if tier == "thorough" else ()):
+                name = "%s/threads=%d/calls=%d" % (kind, nt, calls)
                 if only and only not in name:
                     continue
                 h = prep[kind][0]
-                obls.append(K.Obligation(name, [h], defines=["NT=%d" % nt, "NCALLS=%d" % CALLS], unwind=2 * nt * CALLS + 2,
+                obls.append(K.Obligation(name, [h], defines=["NT=%d" % nt, "NCALLS=%d" % calls], unwind=2 * nt * calls + 2,
                                          timeout=120 if tier == "quick" else 600, includes=[work],
-                                         meta={"kernel": kind, "threads": nt, "calls_per_thread": CALLS,
+                                         meta={"kernel": kind, "threads": nt, "calls_per_thread": calls,
                                                "shared_memory_steps_in_kernel": prep[kind][3] + prep[kind][4]}))
         K.run_all(obls, jobs=6)
         nprops = 0
@@ -298,19 +298,20 @@ def run(tier, seed, only=None):
             kind, nt = o.meta["kernel"], o.meta["threads"]
             if o.verdict == "violated":
                 failed = "; ".join(sorted(set(d for n, d in o.res.failed)))
-                ok, info, sched = _replay_native(work, prep[kind][0], kind, nt)
+                calls = o.meta["calls_per_thread"]
+                ok, info, sched = _replay_native(work, prep[kind][0], kind, nt, calls)
                 if ok:
-                    d = K.save_replay(PID, "%s_t%d" % (kind, nt), {
+                    d = K.save_replay(PID, "%s_t%d_c%d" % (kind, nt, calls), {
                         "harness.c": open(prep[kind][0]).read(),
                         os.path.basename(prep[kind][1]): open(prep[kind][1]).read(),
                         "kernel.cpp": texts[kind], "schedule.txt": sched + "\n",
                         "trace.txt": o.res.out[-20000:],
                         "README": "%s\n%s\nreproduced natively with the forced schedule: %s\n"
                                   "rebuild: gcc -O0 -w -DVERIF_REPLAY -D__dso_handle=verif_dso_handle -DNT=%d -DNCALLS=%d -I /verif/engine_k -I . harness.c "
-                                  "/verif/engine_k/verif_replay.c -lpthread && ./a.out $(cat schedule.txt)\n" % (o.name, failed, info, nt, CALLS)})
+                                  "/verif/engine_k/verif_replay.c -lpthread && ./a.out $(cat schedule.txt)\n" % (o.name, failed, info, nt, calls)})
                     res.violation("%s:duplicate" % kind,
                                   "%s counter: two autoinc() calls return the same value under schedule %s (%d threads x %d calls)"
-                                  % ("interpreter Engine::incCounter" if kind == "interp" else "synthesised `%s`" % expr, sched, nt, CALLS), d)
+                                  % ("interpreter Engine::incCounter" if kind == "interp" else "synthesised `%s`" % expr, sched, nt, calls), d)
                 else:
                     res.inconc("counterexample for %s (%s) did not reproduce natively: %s" % (o.name, failed, info))
             elif o.verdict != "holds":
@@ -329,7 +330,7 @@ def run(tier, seed, only=None):
             "source": {p: common.file_sha(common.repo_file(p)) for p in
                        ("src/interpreter/Engine.h", "src/interpreter/Engine.cpp", "src/synthesiser/Synthesiser.cpp")},
             "generated_cpp_sha": gen_sha,
-            "bounds": {"threads": [2, 3], "calls_per_thread": CALLS, "memory_model": "SC", "initial_counter": "as initialised by the sliced declaration"},
+            "bounds": {"threads_x_calls": sorted(set((o.meta["threads"], o.meta["calls_per_thread"]) for o in obls)), "memory_model": "SC", "initial_counter": "as initialised by the sliced declaration"},
             "solver_time_s": round(sum((o.res.time if o.res else 0) + (o.wres.time if o.wres else 0) for o in obls), 1),
             "queries": sum((1 if o.res else 0) + (1 if o.wres else 0) for o in obls),
             "checker_cmd": obls[0].res.cmd if obls and obls[0].res else "",
